@@ -1,10 +1,10 @@
 package main
 
 import (
-	"strings"
 	"fmt"
 	"io"
 	"math"
+	"strings"
 	"sync"
 	"time"
 
@@ -332,7 +332,37 @@ type c20Set struct {
 
 func c20Family(r *mon.Rand) []c20Set {
 	var fam []c20Set
-	switch r.Intn(6) {
+	switch r.Intn(8) {
+	case 7: // a set of distinct bounds, then one of the same length made of repetitions of one of them with the same bit-pattern sum ({m/2,m,2m} and {m,m,m})
+		if r.Bool() {
+			m := float64(r.Range(1, 400)) / 4
+			k := float64(uint(1) << uint(r.Range(1, 3)))
+			fam = append(fam, c20Set{V: []float64{m / k, m, m * k}, Why: "distinct bounds m/k, m, m*k"}, c20Set{V: []float64{m, m, m}, Why: "the middle bound three times (equal bit-pattern sum, every bound is one of the other set's)"})
+		} else {
+			m := time.Duration(r.Range(1000, 5000000))
+			d := time.Duration(r.Range(1, 999))
+			fam = append(fam, c20Set{IsDur: true, D: []time.Duration{m - d, m, m + d}, Why: "distinct bounds m-d, m, m+d"}, c20Set{IsDur: true, D: []time.Duration{m, m, m}, Why: "the middle bound three times (equal sum, every bound is one of the other set's)"})
+		}
+		if r.Chance(1, 4) {
+			fam[0], fam[1] = fam[1], fam[0]
+		}
+	case 6: // a value set and a duration set with equal identity whose elements also convert to each other (0 is 0s, -x and x cancel)
+		var v []float64
+		var d []time.Duration
+		for k := r.Range(0, 2); k > 0; k-- {
+			x := float64(r.Range(1, 64)) / 4
+			v = append(v, -x, x)
+			d = append(d, -time.Duration(x*float64(time.Second)), time.Duration(x*float64(time.Second)))
+		}
+		for k := r.Range(0, 2); k > 0 || len(v) == 0; k-- {
+			at := r.Intn(len(v) + 1)
+			v = append(v[:at], append([]float64{0}, v[at:]...)...)
+			d = append(d[:at], append([]time.Duration{0}, d[at:]...)...)
+		}
+		fam = append(fam, c20Set{V: v, Why: "value set whose bit patterns add up to 0"}, c20Set{IsDur: true, D: d, Why: "the same bounds as durations (equal identity, equal converted elements, other kind)"})
+		if r.Bool() {
+			fam[0], fam[1] = fam[1], fam[0]
+		}
 	case 5: // two value sets a few ulps apart whose bit patterns add up to the same sum: one bound one ulp up, another one ulp down
 		n := r.Range(2, 6)
 		base := make([]float64, n)
